@@ -387,10 +387,15 @@ def run_crosscheck(cases, pool, seed, tier):
     n = 40 if tier == "quick" else 400
     jobs, meta = [], []
     for modname, c in cases:
-        if not c.proved or c.samples is None:
+        if not c.proved or (c.samples is None and c.ground is None):
             continue
         rng = random.Random(f"{seed}:{c.name}")
-        prims = [c.samples(rng) for _ in range(n)]
+        if c.samples is not None:
+            prims = [c.samples(rng) for _ in range(n)]
+        else:
+            prims = list(c.ground())
+            if len(prims) > 6000:
+                prims = rng.sample(prims, 6000)
         jobs.append((modname, c.name, prims))
         meta.append((modname, c, prims))
     eng_out = pool.map(_concrete_worker, jobs, chunksize=1) if jobs else []
